@@ -16,6 +16,7 @@ mod pki;
 mod der;
 mod manifest;
 mod prefixlaws;
+mod pubpoint;
 mod reschain;
 mod rfc1982;
 mod rrdp;
@@ -67,6 +68,7 @@ fn main() {
         ("drive", "rtrpacing") => rtrpacing::drive(rest),
         ("replay", "rtrfanout") => rtrfanout::replay(rest),
         ("replay", "rtaval") => rtaval::replay(rest),
+        ("replay", "pubpoint") => pubpoint::replay(rest),
         ("cycle", "rtaval") => rtaval::cycle(rest),
         ("drive", "rtaval") => rtaval::drive(rest),
         ("drive", "decoders") => decoders::drive(rest),
